@@ -41,9 +41,9 @@ Ltac qb_step :=
       first [ rewrite (Qeq_bool_true a b) by qb_solve | rewrite (Qeq_bool_false a b) by qb_solve ]
   end.
 Ltac ms_cbn := repeat progress (
-  unfold stepR, in_test, local_goal, left_boundary, contains_rc, contains_lc, containing, eeqb, eltb,
+  unfold stepR, in_test, local_goal, left_boundary, contains_rc, contains_lc, containing, goal_mask, is_neginf, eeqb, eltb,
          schedule, left_segs, right_segs, dists;
-  cbn [schedule left_segs right_segs containing dists map filter sort_by fold_right insert_by fst snd app
+  cbn [schedule left_segs right_segs containing goal_mask is_neginf existsb dists map filter sort_by fold_right insert_by fst snd app
        seg_fms goal_fms lo hi slope contains_rc contains_lc eleb eltb eeqb negb andb orb left_boundary
        fold_left stepR in_test push local_goal]).
 Ltac ms_eval := ms_cbn; repeat (qb_step; ms_cbn).
@@ -51,10 +51,10 @@ Ltac ms_eval := ms_cbn; repeat (qb_step; ms_cbn).
 (* ------------------------------------------------------------------ the cycle arrives at the goal *)
 Definition RokFkm (R : ExtQ) : Prop := cyc_okR R.
 
-Lemma fkm_reaches M M2 G R :
+Lemma fkm_reaches fx M M2 G R :
   goal_accepted G = true -> cyc_okR R ->
   (G = NegInf -> match R with Fin r => r < 1 | _ => True end) ->
-  fold_left stepR (schedule (fkm_goodman_diagram M M2) G) R = G.
+  fold_left stepR (schedule fx (fkm_goodman_diagram M M2) G) R = G.
 Proof.
   intros HG HR Hex. unfold fkm_goodman_diagram.
   assert (F3 : fms ((0 + 1) / 2) == 3) by reflexivity.
@@ -62,11 +62,11 @@ Proof.
   assert (Hh0 : 0 < (0 + 1) / 2) by reflexivity.
   destruct G as [|g|]; cbn in HG; [| |discriminate].
   - (* goal -inf *)
-    ms_eval.
-    destruct R as [|r|]; cbn in HR; [| |contradiction].
-    + ms_eval. reflexivity.
-    + specialize (Hex eq_refl). cbn in Hex.
-      destruct (Q_dec r 0) as [[L|L]|L]; ms_eval; reflexivity.
+    destruct fx; ms_eval.
+    all: destruct R as [|r|]; cbn in HR; [| |contradiction].
+    all: try (ms_eval; reflexivity).
+    all: specialize (Hex eq_refl); cbn in Hex.
+    all: destruct (Q_dec r 0) as [[L|L]|L]; ms_eval; reflexivity.
   - assert (Hg1 : ~ g == 1) by (intro E; rewrite (Qeq_bool_true _ _ E) in HG; discriminate).
     clear Hex.
     destruct (Qlt_le_dec 1 g) as [G1|G1].
@@ -105,11 +105,11 @@ Proof.
         -- destruct (Q_dec r 0) as [[L|L]|L]; [| destruct (Qlt_le_dec r 1) |]; ms_eval; reflexivity.
 Qed.
 
-Lemma fkm_compressive_stays M M2 r :
-  1 < r -> fold_left stepR (schedule (fkm_goodman_diagram M M2) NegInf) (Fin r) = Fin r.
+Lemma fkm_compressive_stays fx M M2 r :
+  1 < r -> fold_left stepR (schedule fx (fkm_goodman_diagram M M2) NegInf) (Fin r) = if fx then NegInf else Fin r.
 Proof.
   intro Hr. unfold fkm_goodman_diagram. assert (F3 : fms ((0 + 1) / 2) == 3) by reflexivity.
-  ms_eval. reflexivity.
+  destruct fx; ms_eval; reflexivity.
 Qed.
 
 (* ------------------------------------------------------------------ the potential of the FKM-Goodman diagram *)
@@ -154,10 +154,14 @@ Proof.
       - ms_eval. cbn. lra. }
     split; [exact Hb|split; [exact Hb|]].
     intro Hc. destruct G as [|g|]; cbn in HG; [| |discriminate].
-    + revert Hc; ms_eval; intros [Hc|Hc]; discriminate.
+    + exists (1 - M). cbn [fst snd slope]. split; [|split].
+      * intros R HR Ht. revert Ht. destruct R as [|r|]; cbn in HR; [| |contradiction]; ms_eval; intro Ht; bh.
+        assert (1 < r) by lra. h_eval. field. lra.
+      * ms_eval. cbn. ring.
+      * ms_eval. cbn. lra.
     + assert (Hg1 : ~ g == 1) by (intro E; rewrite (Qeq_bool_true _ _ E) in HG; discriminate).
       assert (G1 : 1 < g).
-      { revert Hc. ms_eval. intros [Hc|Hc]; bh; lra. }
+      { revert Hc. ms_eval. intros [Hc|[Hc|[Hn Hc]]]; [| |discriminate Hn]; bh; lra. }
       exists (1 - M). cbn [fst snd slope]. split; [|split].
       * intros R HR Ht. revert Ht. destruct R as [|r|]; cbn in HR; [| |contradiction]; ms_eval; intro Ht; bh.
         -- cbn. ring.
@@ -186,7 +190,7 @@ Proof.
         -- ms_eval. cbn. ring.
         -- ms_eval. cbn. lra.
       * assert (G0 : g <= 0).
-        { revert Hc. ms_eval. intros [Hc|Hc]; bh; lra. }
+        { revert Hc. ms_eval. intros [Hc|[Hc|[Hn Hc]]]; [| |discriminate Hn]; bh; lra. }
         exists 1. cbn [fst snd slope]. split; [|split].
         -- intros R HR Ht. revert Ht. destruct R as [|r|]; cbn in HR; [| |contradiction]; ms_eval; intro Ht; bh.
            ++ cbn. ring.
@@ -204,10 +208,10 @@ Proof.
       - ms_eval. cbn. split; lra. }
     split; [exact Hb|split; [exact Hb|]].
     intro Hc. destruct G as [|g|]; cbn in HG; [| |discriminate].
-    + revert Hc; ms_eval; intros [Hc|Hc]; discriminate.
+    + revert Hc; ms_eval; intros [Hc|[Hc|[_ Hc]]]; discriminate.
     + assert (Hg1 : ~ g == 1) by (intro E; rewrite (Qeq_bool_true _ _ E) in HG; discriminate).
       assert (G0 : 0 <= g /\ g < 1).
-      { revert Hc. ms_eval. intros [Hc|Hc]; bh; lra. }
+      { revert Hc. ms_eval. intros [Hc|[Hc|[Hn Hc]]]; [| |discriminate Hn]; bh; lra. }
       exists ((1 + M) / (1 + M2)). cbn [fst snd slope]. split; [|split].
       * intros R HR Ht. revert Ht. destruct R as [|r|]; cbn in HR; [| |contradiction]; ms_eval; intro Ht; bh.
         destruct (Qlt_le_dec 0 r) as [L|L].
@@ -234,24 +238,24 @@ Proof.
   - apply Qlt_shift_div_l; try lra. nra.
 Qed.
 
-Theorem fkm_state_invariant M M2 G c :
+Theorem fkm_state_invariant fx M M2 G c :
   0 <= M2 -> 0 <= M -> M < 1 -> goal_accepted G = true -> cyc_okR (snd c) ->
-  fst (transform_state (fkm_goodman_diagram M M2) G c) * H_fkm M M2 G == fst c * H_fkm M M2 (snd c)
-  /\ cyc_okR (snd (transform_state (fkm_goodman_diagram M M2) G c))
-  /\ H_fkm M M2 (snd (transform_state (fkm_goodman_diagram M M2) G c)) == H_fkm M M2 G.
+  fst (transform_state fx (fkm_goodman_diagram M M2) G c) * H_fkm M M2 G == fst c * H_fkm M M2 (snd c)
+  /\ cyc_okR (snd (transform_state fx (fkm_goodman_diagram M M2) G c))
+  /\ H_fkm M M2 (snd (transform_state fx (fkm_goodman_diagram M M2) G c)) == H_fkm M M2 G.
 Proof.
   intros HM2 HM0 HM1 HG Hc.
   pose proof (good_diagram_fkm M M2 G HM2 HM0 HM1 HG) as GD.
-  pose proof (transform_invariant _ _ _ c GD Hc) as Inv.
-  assert (Ok : cyc_okR (snd (transform_state (fkm_goodman_diagram M M2) G c))).
-  { unfold transform_state. exact (proj2 (fold_invariant _ _ c (good_schedule _ _ _ GD) Hc)). }
-  assert (HH : H_fkm M M2 (snd (transform_state (fkm_goodman_diagram M M2) G c)) == H_fkm M M2 G).
+  pose proof (transform_invariant fx _ _ _ c GD Hc) as Inv.
+  assert (Ok : cyc_okR (snd (transform_state fx (fkm_goodman_diagram M M2) G c))).
+  { unfold transform_state. exact (proj2 (fold_invariant _ _ c (good_schedule fx _ _ _ GD) Hc)). }
+  assert (HH : H_fkm M M2 (snd (transform_state fx (fkm_goodman_diagram M M2) G c)) == H_fkm M M2 G).
   { unfold transform_state. rewrite snd_fold_step.
     destruct G as [|g|] eqn:EG.
     - destruct (snd c) as [|r|] eqn:ER; cbn in Hc; [| |contradiction].
       + rewrite fkm_reaches; [reflexivity|exact HG|exact I|intros _; exact I].
       + destruct (Qlt_le_dec 1 r) as [L|L].
-        * rewrite (fkm_compressive_stays M M2 r L). apply H_fkm_compressive. exact L.
+        * rewrite (fkm_compressive_stays fx M M2 r L). destruct fx; [reflexivity|]. apply H_fkm_compressive. exact L.
         * rewrite fkm_reaches; [reflexivity|exact HG|exact Hc|intros _; lra].
     - rewrite fkm_reaches; [reflexivity|exact HG|exact Hc|intro E; discriminate E].
     - discriminate HG. }
@@ -266,35 +270,35 @@ Proof.
 Qed.
 
 (* the transformed amplitude of a cycle state: a * H(R) / H(G) *)
-Theorem fkm_state_closed M M2 G a R :
+Theorem fkm_state_closed fx M M2 G a R :
   0 <= M2 -> 0 <= M -> M < 1 -> goal_accepted G = true -> cyc_okR R ->
-  fst (transform_state (fkm_goodman_diagram M M2) G (a, R)) == a * H_fkm M M2 R / H_fkm M M2 G.
+  fst (transform_state fx (fkm_goodman_diagram M M2) G (a, R)) == a * H_fkm M M2 R / H_fkm M M2 G.
 Proof.
   intros HM2 HM0 HM1 HG HR.
-  destruct (fkm_state_invariant M M2 G (a, R) HM2 HM0 HM1 HG HR) as [Inv _]. cbn [fst snd] in Inv.
+  destruct (fkm_state_invariant fx M M2 G (a, R) HM2 HM0 HM1 HG HR) as [Inv _]. cbn [fst snd] in Inv.
   pose proof (H_fkm_pos M M2 G HM2 HM0 HM1 (goal_accepted_ok G HG)) as Hp.
   rewrite <- Inv. field. lra.
 Qed.
 
 (* path independence, idempotence, fixed points -- on cycle states *)
-Theorem fkm_path_independent M M2 G1 G2 c :
+Theorem fkm_path_independent fx M M2 G1 G2 c :
   0 <= M2 -> 0 <= M -> M < 1 -> goal_accepted G1 = true -> goal_accepted G2 = true -> cyc_okR (snd c) ->
-  fst (transform_state (fkm_goodman_diagram M M2) G2 (transform_state (fkm_goodman_diagram M M2) G1 c))
-  == fst (transform_state (fkm_goodman_diagram M M2) G2 c).
+  fst (transform_state fx (fkm_goodman_diagram M M2) G2 (transform_state fx (fkm_goodman_diagram M M2) G1 c))
+  == fst (transform_state fx (fkm_goodman_diagram M M2) G2 c).
 Proof.
   intros HM2 HM0 HM1 HG1 HG2 Hc.
-  destruct (fkm_state_invariant M M2 G1 c HM2 HM0 HM1 HG1 Hc) as [I1 [Ok1 HH1]].
-  destruct (fkm_state_invariant M M2 G2 _ HM2 HM0 HM1 HG2 Ok1) as [I12 _].
-  destruct (fkm_state_invariant M M2 G2 c HM2 HM0 HM1 HG2 Hc) as [I2 _].
+  destruct (fkm_state_invariant fx M M2 G1 c HM2 HM0 HM1 HG1 Hc) as [I1 [Ok1 HH1]].
+  destruct (fkm_state_invariant fx M M2 G2 _ HM2 HM0 HM1 HG2 Ok1) as [I12 _].
+  destruct (fkm_state_invariant fx M M2 G2 c HM2 HM0 HM1 HG2 Hc) as [I2 _].
   pose proof (H_fkm_pos M M2 G2 HM2 HM0 HM1 (goal_accepted_ok G2 HG2)) as Hp.
   rewrite HH1, I1, <- I2 in I12.
   apply (Qmult_inj_r _ _ (H_fkm M M2 G2)); [lra|exact I12].
 Qed.
 
-Theorem fkm_idempotent M M2 G c :
+Theorem fkm_idempotent fx M M2 G c :
   0 <= M2 -> 0 <= M -> M < 1 -> goal_accepted G = true -> cyc_okR (snd c) ->
-  fst (transform_state (fkm_goodman_diagram M M2) G (transform_state (fkm_goodman_diagram M M2) G c))
-  == fst (transform_state (fkm_goodman_diagram M M2) G c).
+  fst (transform_state fx (fkm_goodman_diagram M M2) G (transform_state fx (fkm_goodman_diagram M M2) G c))
+  == fst (transform_state fx (fkm_goodman_diagram M M2) G c).
 Proof. intros. apply fkm_path_independent; assumption. Qed.
 
 Global Instance Qltb_Proper : Proper (Qeq ==> Qeq ==> eq) Qltb.
@@ -308,13 +312,13 @@ Proof.
 Qed.
 
 (* a cycle that already has the target stress ratio keeps its amplitude *)
-Theorem fkm_at_target_unchanged M M2 G a R :
+Theorem fkm_at_target_unchanged fx M M2 G a R :
   0 <= M2 -> 0 <= M -> M < 1 -> goal_accepted G = true -> cyc_okR R ->
   match R, G with Fin r, Fin g => r == g | NegInf, NegInf => True | _, _ => False end ->
-  fst (transform_state (fkm_goodman_diagram M M2) G (a, R)) == a.
+  fst (transform_state fx (fkm_goodman_diagram M M2) G (a, R)) == a.
 Proof.
   intros HM2 HM0 HM1 HG HR E.
-  rewrite (fkm_state_closed M M2 G a R HM2 HM0 HM1 HG HR).
+  rewrite (fkm_state_closed fx M M2 G a R HM2 HM0 HM1 HG HR).
   pose proof (H_fkm_pos M M2 G HM2 HM0 HM1 (goal_accepted_ok G HG)) as Hp.
   assert (EH : H_fkm M M2 R == H_fkm M M2 G).
   { destruct R as [|r|], G as [|g|]; try contradiction; [reflexivity|apply H_fkm_ext; exact E]. }
@@ -397,21 +401,21 @@ Proof.
 Qed.
 
 (* amplitude returned by the plain function fkm_goodman(amplitude, meanstress, M, M2, R_goal) for one cycle *)
-Definition fkm_amp (M M2 : Q) (G : ExtQ) (a m : Q) : Q :=
-  match transform (fkm_goodman_diagram M M2) G (cyc_of_range_mean (2 * a) m) with
+Definition fkm_amp (fx : bool) (M M2 : Q) (G : ExtQ) (a m : Q) : Q :=
+  match transform fx (fkm_goodman_diagram M M2) G (cyc_of_range_mean (2 * a) m) with
   | Some (x, _) => x
   | None => 0
   end.
 
-Theorem fkm_goodman_closed_form M M2 G a m :
+Theorem fkm_goodman_closed_form fx M M2 G a m :
   0 <= M2 -> 0 <= M -> M < 1 -> 0 < a -> goal_accepted G = true ->
-  fkm_amp M M2 G a m == goodman_closed M M2 a m G.
+  fkm_amp fx M M2 G a m == goodman_closed M M2 a m G.
 Proof.
   intros HM2 HM0 HM1 Ha HG. unfold fkm_amp, transform. rewrite HG.
   destruct (cyc_of_range_mean_fkm M M2 a m HM2 Ha) as [a' [R [Ec [Ea [HR HE]]]]].
   rewrite Ec. unfold result_amp, goodman_closed.
   rewrite (goodman_at_H M M2 _ G HM2 HM0 HM1 (goal_accepted_ok G HG)), <- HE.
-  rewrite (fkm_state_closed M M2 G a' R HM2 HM0 HM1 HG HR).
+  rewrite (fkm_state_closed fx M M2 G a' R HM2 HM0 HM1 HG HR).
   pose proof (H_fkm_pos M M2 G HM2 HM0 HM1 (goal_accepted_ok G HG)) as Hp.
   pose proof (H_fkm_pos M M2 R HM2 HM0 HM1 HR) as HpR.
   rewrite Ea. rewrite Qabs_pos.
